@@ -133,4 +133,41 @@ def amend_shift(trace, viol):
             break
     if prev_commit is None:
         return False
-    return any(o.get("op") == "edit" and o.get("who") == "human" for o in ops[prev_commit:st])
+    return any(o.get("op") == "edit" and (o.get("who") == "human" or (o.get("desc") or {}).get("kind") == "delete")
+               for o in ops[prev_commit:st])
+
+
+@predicate("rebase_i_drop")
+def rebase_i_drop(trace, viol):
+    if viol.get("class") not in LEDGER_CLASSES:
+        return False
+    reb = _index_of(trace, lambda o: _is_git(o, "rebase", "-i") and "drop" in (o.get("plan") or ""))
+    st = viol.get("step")
+    return reb is not None and isinstance(st, int) and st >= reb
+
+
+@predicate("rebase_human_intraline_edit")
+def rebase_human_intraline_edit(trace, viol):
+    """a human intra-line edit inside the rewritten range, then a rebase through the slow path"""
+    if viol.get("class") != "human_line_reported_ai":
+        return False
+    reb = _index_of(trace, lambda o: _is_git(o, "rebase") and "--continue" not in o["argv"] and "--abort" not in o["argv"])
+    if reb is None:
+        return False
+    mod = _index_of(trace, lambda o: o.get("op") == "edit" and o.get("who") == "human" and
+                    (o.get("desc") or {}).get("kind") == "modify", 0, reb)
+    st = viol.get("step")
+    return mod is not None and isinstance(st, int) and st >= reb
+
+
+@predicate("reset_multi_commit")
+def reset_multi_commit(trace, viol):
+    if viol.get("class") not in LEDGER_CLASSES:
+        return False
+    def multi(o):
+        a = o.get("argv") or []
+        return o.get("op") == "git" and a[:1] == ["reset"] and any(
+            x.startswith("HEAD~") and x[5:].isdigit() and int(x[5:]) >= 2 for x in a)
+    rs = _index_of(trace, multi)
+    st = viol.get("step")
+    return rs is not None and isinstance(st, int) and st > rs
